@@ -59,6 +59,10 @@ Section Spec.
 
   Lemma owned_next th : ownedc (next th) = cache th.
   Proof. unfold owned, next. destruct (prog th); cbn; apply app_nil_r. Qed.
+  Lemma owned_goto th p : ownedc (goto th p) = cache th ++ pending c p.
+  Proof. reflexivity. Qed.
+  Lemma owned_eq th : ownedc th = cache th ++ pending c (tpc th).
+  Proof. reflexivity. Qed.
   Lemma wf_next th : wf_th (next th).
   Proof. unfold wf_th, next. destruct (prog th); cbn; exact I. Qed.
   Lemma cache_next th : cache (next th) = cache th.
@@ -136,10 +140,10 @@ Section Spec.
     - (* PGrabPush: a new slab *) injection E as <- _ _. split.
       + unfold mk; cbn [threads]. apply Forall_set_nth; [exact W | exact Wth].
       + intros b. rewrite allb_mk. rewrite nsl_mk, app_length. cbn [length].
+        replace (Z.of_nat (length (backing s) + 1)) with (nsl s + 1) by (unfold nsl; lia). fold (nsl s).
         match goal with |- context [set_nth _ _ ?x] => pose proof (cnt_flat_map_set_nth ownedc _ _ x _ b N) as HF end.
-        specialize (B b). rewrite allb_eq in B. unfold owned in HF. cbn [cache goto tpc pending] in HF. rewrite P, Wth in HF.
-        cbn [pending app] in HF. rewrite cnt_chunks in HF. rewrite Z2Nat.id in HF by lia. fold (nsl s) in HF.
-        replace (Z.of_nat (length (backing s) + 1)) with (nsl s + 1) by (unfold nsl; lia).
+        specialize (B b). rewrite allb_eq in B. rewrite owned_goto, (owned_eq th), P, Wth in HF.
+        cbn [pending app] in HF. rewrite cnt_chunks in HF. rewrite Z2Nat.id in HF by lia. rewrite cnt_nil in HF.
         replace ((nsl s + 1) * pm c) with (nsl s * pm c + pm c) by ring.
         assert (0 <= nsl s) by (unfold nsl; lia). assert (0 <= nsl s * pm c) by (apply Z.mul_nonneg_nonneg; lia).
         destruct (0 <=? b) eqn:A1; destruct (b <? nsl s * pm c) eqn:A2; destruct (nsl s * pm c + 0 <=? b) eqn:A3;
@@ -170,7 +174,7 @@ Section Spec.
     - unfold init; cbn. apply Forall_forall. intros th Hth. apply in_map_iff in Hth. destruct Hth as [p [<- _]]. exact I.
     - intros b. unfold all_blocks, init, nsl. cbn. rewrite H0. cbn.
       assert (F : forall l : list (list op), flat_map ownedc (map (fun p => TH PStart p [] [] false) l) = []) by (induction l; cbn; auto).
-      rewrite F. destruct (0 <=? b); reflexivity.
+      rewrite F. destruct (0 <=? b) eqn:A1; destruct (b <? 0) eqn:A2; cbn; zb; try reflexivity; lia.
   Qed.
 
   Theorem reach_BInv q0 progs s : qcont q0 = [] -> reach stepQ (init Q q0 progs) s -> BInv s.
@@ -201,37 +205,37 @@ Section Spec.
   Proof.
     intros H0 R E U.
     assert (R' : reach stepQ (init Q q0 progs) s') by (eapply reach_step; eauto).
-    pose proof (blocks_exclusive _ _ _ H0 R') as ND. unfold all_blocks in ND. apply NoDup_app_remove_r in ND.
-    split; [|exact ND]. rewrite U in ND. intros Hin. apply NoDup_remove_2 in ND. rewrite app_nil_r in ND. contradiction.
+    pose proof (blocks_exclusive _ _ _ H0 R') as ND. unfold all_blocks in ND. apply NoDup_app_l in ND.
+    split; [|exact ND]. rewrite U in ND. apply NoDup_snoc_notin. exact ND.
   Qed.
 
-  (* ---------- lock mutual exclusion in the absence of bytesAllocated ---------- *)
-  Definition bytes_pc (p : pc) : bool :=
-    match p with POp OBytes | PBytesCas _ | PBytesSize | PBytesStore _ => true | _ => false end.
-  Definition no_bytes_op (o : op) : Prop := o <> OBytes.
-  Definition no_bytes_th (th : thread) : Prop := bytes_pc (tpc th) = false /\ Forall no_bytes_op (prog th).
+  (* ---------- lock mutual exclusion, for ALL programs (bytesAllocated included) ---------- *)
+  (* the expected value of bytesAllocated's compare-exchange is always 0 (the retry loop resets it) *)
+  Definition wf_cas (th : thread) : Prop := match tpc th with PBytesCas a => a = 0 | _ => True end.
+  (* threads that have incremented / set the lock word since it was last 0: holders and spinners *)
   Definition inc_pc (p : pc) : bool :=
-    match p with PGrabPush | PGrabEnq _ | PGrabStore _ | PGrabSpin => true | _ => false end.
+    match p with PGrabPush | PGrabEnq _ | PGrabStore _ | PGrabSpin | PBytesSize | PBytesStore _ => true | _ => false end.
   Definition incn (ths : list thread) : Z := Z.of_nat (length (filter (fun th => inc_pc (tpc th)) ths)).
 
   Definition LInv (s : stateQ) : Prop :=
-    Forall no_bytes_th (threads s) /\ Z.of_nat (length (threads s)) < 2 ^ 32 /\
+    Forall wf_cas (threads s) /\ Z.of_nat (length (threads s)) < 2 ^ 32 /\
     occ (threads s) <= 1 /\ (occ (threads s) = 1 -> 1 <= lock s) /\ 0 <= lock s <= incn (threads s) /\ maxocc s <= 1.
 
-  Lemma nb_next th : Forall no_bytes_op (prog th) -> no_bytes_th (next th).
-  Proof.
-    intros F. unfold next. destruct (prog th) as [|o r]; split; cbn; auto.
-    - inversion F as [|? ? H ?]; subst. destruct o; try reflexivity. exfalso. apply H. reflexivity.
-    - inversion F; assumption.
-  Qed.
+  Lemma wc_next th : wf_cas (next th).
+  Proof. unfold wf_cas, next. destruct (prog th); cbn; exact I. Qed.
+
+  Lemma next_flags th : in_cs (tpc (next th)) = false /\ inc_pc (tpc (next th)) = false.
+  Proof. unfold next. destruct (prog th); cbn; auto. Qed.
+  Ltac nxt := match goal with |- context [next ?y] => destruct (next_flags y) as [F1 F2]; rewrite F1, F2 end.
+
+  Ltac finl := cbv zeta; cbn [in_cs inc_pc b2z tpc goto]; intros; repeat split; intros; lia.
 
   Lemma step_lock s t ch s' ch' site : LInv s -> stepQ s t ch = Some (s', ch', site) -> LInv s'.
   Proof.
     intros (NB & Hn & Ho & Hl & Hr & Hm) E. unfold step in E. destruct (nth_error (threads s) t) as [th|] eqn:N; [|discriminate].
-    assert (NBth : no_bytes_th th) by (rewrite Forall_forall in NB; apply NB; eapply nth_error_In; eauto).
-    destruct NBth as [Bp Bpr].
+    assert (Wc : wf_cas th) by (rewrite Forall_forall in NB; apply NB; eapply nth_error_In; eauto).
     assert (KEY : forall th' lk bk q us,
-              no_bytes_th th' ->
+              wf_cas th' ->
               (let o' := occ (threads s) - b2z (in_cs (tpc th)) + b2z (in_cs (tpc th')) in
                let i' := incn (threads s) - b2z (inc_pc (tpc th)) + b2z (inc_pc (tpc th')) in
                i' <= Z.of_nat (length (threads s)) -> o' <= 1 /\ (o' = 1 -> 1 <= lk) /\ 0 <= lk <= i') ->
@@ -243,81 +247,72 @@ Section Spec.
       unfold LInv, mk. cbn [threads lock maxocc]. unfold occ, incn in *. rewrite F1, F2. rewrite length_set_nth.
       cbn zeta in H. specialize (H ltac:(lia)). destruct H as (A1 & A2 & A3).
       split; [apply Forall_set_nth; assumption|]. repeat split; try lia. }
+    pose proof (filter_len_ge (fun th0 => in_cs (tpc th0)) _ _ _ N) as Ho1. fold (occ (threads s)) in Ho1.
+    pose proof (filter_len_ge (fun th0 => inc_pc (tpc th0)) _ _ _ N) as Hi1. fold (incn (threads s)) in Hi1. cbv beta in Ho1, Hi1.
     assert (Hi0 : 0 <= incn (threads s)) by (unfold incn; lia).
     assert (Ho0 : 0 <= occ (threads s)) by (unfold occ; lia).
-    destruct (tpc th) eqn:P; cbn in Bp; try discriminate.
-    - (* PStart *) injection E as <- _ _. apply KEY; [apply nb_next; exact Bpr|].
-      pose proof (nb_next th Bpr) as [X _]. destruct (tpc (next th)); cbn in *; try discriminate; intros; lia.
+    unfold wf_cas in Wc.
+    destruct (tpc th) eqn:P; cbn [in_cs inc_pc b2z] in Ho1, Hi1.
+    - (* PStart *) injection E as <- _ _. apply KEY; [apply wc_next|]. nxt; finl.
     - discriminate.
-    - (* POp *) destruct o; cbn in Bp; try discriminate.
+    - (* POp *) destruct o.
       + destruct (cache th) as [|x l].
-        * injection E as <- _ _. apply KEY; [split; [reflexivity | exact Bpr]|]. cbn. intros; lia.
-        * unfold pop_cache in E. injection E as <- _ _. apply KEY; [apply nb_next; exact Bpr|].
-          pose proof (nb_next (logr (setc th (removelast (x :: l))) r_alloc (last (x :: l) 0)) Bpr) as [X _].
-          destruct (tpc (next _)); cbn in *; try discriminate; intros; lia.
+        * injection E as <- _ _. apply KEY; [exact I|]. finl.
+        * unfold pop_cache in E. injection E as <- _ _. apply KEY; [apply wc_next|]. nxt; finl.
       + destruct (user s) as [|u0 us] eqn:U.
-        * injection E as <- _ _. rewrite <- U. apply KEY; [apply nb_next; exact Bpr|].
-          pose proof (nb_next (logr th r_dealloc (-1)) Bpr) as [X _].
-          destruct (tpc (next _)); cbn in *; try discriminate; intros; lia.
+        * injection E as <- _ _. rewrite <- U. apply KEY; [apply wc_next|]. nxt; finl.
         * rewrite <- U in E. injection E as <- _ _.
           match goal with |- context [set_nth _ _ ?x] => set (th2 := x) end.
-          assert (T2 : tpc th2 = PRecycle \/ (no_bytes_th th2 /\ in_cs (tpc th2) = false /\ inc_pc (tpc th2) = false)).
-          { subst th2. match goal with |- context [if ?b then _ else _] => destruct b end; [left; reflexivity | right].
-            match goal with |- context [next ?y] => pose proof (nb_next y Bpr) as [X Y]; split; [split; assumption|];
-              destruct (tpc (next y)); cbn in *; try discriminate; auto end. }
-          destruct T2 as [T2|(T2 & T3 & T4)].
-          -- apply KEY; [split; [rewrite T2; reflexivity|]|rewrite T2; cbn; intros; lia].
-             subst th2. match goal with |- context [if ?b then _ else _] => destruct b end; [exact Bpr|].
-             match goal with |- context [next ?y] => apply (nb_next y Bpr) end.
-          -- apply KEY; [exact T2 | rewrite T3, T4; cbn; intros; lia].
+          assert (T2 : wf_cas th2 /\ in_cs (tpc th2) = false /\ inc_pc (tpc th2) = false).
+          { subst th2. match goal with |- context [if ?bb then _ else _] => destruct bb end.
+            - repeat split.
+            - split; [apply wc_next | apply next_flags]. }
+          destruct T2 as (T2 & T3 & T4). apply KEY; [exact T2 | rewrite T3, T4; finl].
+      + (* bytes *) injection E as <- _ _. apply KEY; [reflexivity|]. finl.
       + destruct (reg th); injection E as <- _ _.
-        * apply KEY; [split; [reflexivity | exact Bpr]|]. cbn. intros; lia.
-        * apply KEY; [apply nb_next; exact Bpr|]. pose proof (nb_next th Bpr) as [X _].
-          destruct (tpc (next th)); cbn in *; try discriminate; intros; lia.
+        * apply KEY; [exact I|]. finl.
+        * apply KEY; [apply wc_next|]. nxt; finl.
     - (* PGrabDeq *) destruct (take_hint ch) as [h ch1]. destruct (qdeq (central s) (Z.to_nat (ideal c)) h) as [l q']. destruct l as [|x l].
-      + injection E as <- _ _. apply KEY; [split; [reflexivity | exact Bpr]|]. cbn. intros; lia.
-      + unfold pop_cache in E. injection E as <- _ _. apply KEY; [apply nb_next; exact Bpr|].
-        match goal with |- context [next ?y] => pose proof (nb_next y Bpr) as [X _]; destruct (tpc (next y)); cbn in *; try discriminate; intros; lia end.
+      + injection E as <- _ _. apply KEY; [exact I|]. finl.
+      + unfold pop_cache in E. injection E as <- _ _. apply KEY; [apply wc_next|]. nxt; finl.
     - (* PGrabFadd *) injection E as <- _ _. destruct (lock s =? 0) eqn:L0; zb.
-      + apply KEY; [split; [reflexivity | exact Bpr]|]. cbn. rewrite L0. intros Hb.
-        change (wrap 32 (0 + 1)) with 1. lia.
-      + apply KEY; [split; [reflexivity | exact Bpr]|]. cbn. intros Hb.
-        rewrite wrap_small by lia. lia.
+      + apply KEY; [exact I|]. rewrite L0. change (wrap 32 (0 + 1)) with 1. finl.
+      + apply KEY; [exact I|]. cbv zeta; cbn [in_cs inc_pc b2z tpc goto]; intros Hb. rewrite wrap_small by lia. repeat split; intros; lia.
     - (* PGrabSpin *) injection E as <- _ _. destruct (lock s =? 0) eqn:L0; zb.
-      + apply KEY; [split; [reflexivity | exact Bpr]|]. cbn. intros; lia.
-      + apply KEY; [split; [reflexivity | exact Bpr]|]. cbn. intros; lia.
-    - (* PGrabPush *) injection E as <- _ _. apply KEY; [split; [reflexivity | exact Bpr]|]. cbn. intros; lia.
-    - (* PGrabEnq *) injection E as <- _ _. apply KEY; [split; [reflexivity | exact Bpr]|]. cbn. intros; lia.
-    - (* PGrabStore *) unfold pop_cache in E. injection E as <- _ _. apply KEY; [apply nb_next; exact Bpr|].
-      match goal with |- context [next ?y] => pose proof (nb_next y Bpr) as [X _]; destruct (tpc (next y)); cbn in *; try discriminate; intros; lia end.
-    - (* PRecycle *) injection E as <- _ _. apply KEY; [apply nb_next; exact Bpr|].
-      match goal with |- context [next ?y] => pose proof (nb_next y Bpr) as [X _]; destruct (tpc (next y)); cbn in *; try discriminate; intros; lia end.
-    - (* PExitFlush *) injection E as <- _ _. apply KEY; [apply nb_next; exact Bpr|].
-      match goal with |- context [next ?y] => pose proof (nb_next y Bpr) as [X _]; destruct (tpc (next y)); cbn in *; try discriminate; intros; lia end.
+      + apply KEY; [exact I|]. finl.
+      + apply KEY; [exact I|]. finl.
+    - (* PGrabPush *) injection E as <- _ _. apply KEY; [exact I|]. finl.
+    - (* PGrabEnq *) injection E as <- _ _. apply KEY; [exact I|]. finl.
+    - (* PGrabStore *) unfold pop_cache in E. injection E as <- _ _. apply KEY; [apply wc_next|]. nxt; finl.
+    - (* PRecycle *) injection E as <- _ _. apply KEY; [apply wc_next|]. nxt; finl.
+    - (* PBytesCas: the expected value is 0, so it succeeds only on a free lock *) subst a. destruct (lock s =? 0) eqn:L0; injection E as <- _ _; zb.
+      + apply KEY; [exact I|]. finl.
+      + apply KEY; [reflexivity|]. finl.
+    - (* PBytesSize *) injection E as <- _ _. apply KEY; [exact I|]. finl.
+    - (* PBytesStore *) injection E as <- _ _. apply KEY; [apply wc_next|]. nxt; finl.
+    - (* PExitFlush *) injection E as <- _ _. apply KEY; [apply wc_next|]. nxt; finl.
   Qed.
 
-  Definition no_bytes_progs (progs : list (list op)) : Prop := Forall (Forall no_bytes_op) progs.
-
-  Lemma init_LInv q0 progs : no_bytes_progs progs -> Z.of_nat (length progs) < 2 ^ 32 -> LInv (init Q q0 progs).
+  Lemma init_LInv q0 progs : Z.of_nat (length progs) < 2 ^ 32 -> LInv (init Q q0 progs).
   Proof.
-    intros NB Hn. unfold LInv, init. cbn [threads lock maxocc].
+    intros Hn. unfold LInv, init. cbn [threads lock maxocc].
     assert (F1 : forall l : list (list op), filter (fun th => in_cs (tpc th)) (map (fun p => TH PStart p [] [] false) l) = []) by (induction l; cbn; auto).
     assert (F2 : forall l : list (list op), filter (fun th => inc_pc (tpc th)) (map (fun p => TH PStart p [] [] false) l) = []) by (induction l; cbn; auto).
     unfold occ, incn. rewrite F1, F2, map_length. cbn. repeat split; try lia.
-    apply Forall_forall. intros th Hth. apply in_map_iff in Hth. destruct Hth as [p [<- Hp]].
-    unfold no_bytes_progs in NB. rewrite Forall_forall in NB. split; [reflexivity | apply NB; exact Hp].
+    apply Forall_forall. intros th Hth. apply in_map_iff in Hth. destruct Hth as [p [<- Hp]]. exact I.
   Qed.
 
-  (* lock_mutual_exclusion on the complement of the finding's domain: no thread ever calls bytesAllocated *)
-  Theorem lock_mutual_exclusion_without_bytes q0 progs s :
-    no_bytes_progs progs -> Z.of_nat (length progs) < 2 ^ 32 -> reach stepQ (init Q q0 progs) s ->
-    occ (threads s) <= 1 /\ maxocc s <= 1.
+  (* lock_mutual_exclusion: at most one thread is ever between a successful acquisition of backingStoreLock (fetch_add that
+     returned 0, or compare-exchange 0 -> 1) and its store(0) -- any programs, any schedule, any queue, any class *)
+  Theorem lock_mutual_exclusion q0 progs s :
+    Z.of_nat (length progs) < 2 ^ 32 -> reach stepQ (init Q q0 progs) s ->
+    occ (threads s) <= 1 /\ maxocc s <= 1 /\ (occ (threads s) = 1 -> 1 <= lock s).
   Proof.
-    intros NB Hn R.
+    intros Hn R.
     assert (L : LInv s).
     { apply (reach_inv stepQ LInv (init Q q0 progs)); [apply init_LInv; assumption | | exact R].
       intros s1 t ch s1' ch' site I E. eapply step_lock; eauto. }
-    destruct L as (_ & _ & A & _ & _ & B). split; assumption.
+    destruct L as (_ & _ & A & C & _ & B). repeat split; assumption.
   Qed.
 End Spec.
 
@@ -354,47 +349,22 @@ Proof.
     injection E as <- <-. unfold lq_cont. apply (remove_all_spec _ _ _ R).
 Qed.
 
-(* ---------- the refutation of lock mutual exclusion ---------- *)
-(* T0 is inside grabFromCentralStore's critical section (fetch_add returned 0, about to push_back); T1 calls bytesAllocated:
-   compare_exchange(0 -> 1) fails and leaves allocId = 1, compare_exchange(1 -> 1) SUCCEEDS: both are inside.  Then T1's
-   store(0) releases T0's lock, so T2's fetch_add returns 0 and a second grower enters while T0 is still about to push_back. *)
+(* ---------- regression: the schedule that used to break lock mutual exclusion ---------- *)
+(* Before the repair (bytesAllocated retried its compare-exchange with the observed value): T0 inside grabFromCentralStore's
+   critical section, T1's second compare-exchange succeeded (occupancy 2), its store(0) released T0's lock and T2's fetch_add
+   returned 0.  On the repaired code the same decisions leave T1 retrying with expected value 0 and T2 spinning. *)
 Definition c4k : cfg := cfg_of_chunk 4096.
-Definition refute_progs : list (list op) := [[OAlloc; OExit]; [OBytes; OExit]; [OAlloc; OExit]].
-(* decisions; the 0 after the third/… decision of a dequeue step is that step's oracle "0 blocks" *)
-Definition refute_sched : list Z := [0; 0; 0; 0; 0;   1; 1; 1; 1].
-Definition refute_sched3 : list Z := [0; 0; 0; 0; 0;   1; 1; 1; 1; 1; 1;   2; 2; 2; 0; 2].
-
+Definition regress_progs : list (list op) := [[OAlloc; OExit]; [OBytes; OExit]; [OAlloc; OExit]].
+(* decisions; the 0 following the decision of a dequeue step is that step's oracle "0 blocks" *)
+Definition regress_sched : list Z := [0; 0; 0; 0; 0;   1; 1; 1; 1; 1; 1;   2; 2; 2; 0; 2].
 Definition stepL := step (list Z) lq_enq oq_deq c4k.
+Definition regress_state : state (list Z) :=
+  fst (fst (run stepL (cands (list Z)) (finished (list Z)) 15 (init (list Z) [] regress_progs) regress_sched [])).
 
-Lemma refuted_run :
-  let '(s, tr, st) := run_sb (list Z) lq_enq oq_deq c4k 9 [] refute_progs refute_sched in
-  map tpc (threads s) = [PGrabPush; PBytesSize; PStart] /\ occ (threads s) = 2 /\ lock s = 1.
+Lemma regress_run :
+  map tpc (threads regress_state) = [PGrabPush; PBytesCas 0; PGrabSpin] /\ occ (threads regress_state) = 1 /\
+  maxocc regress_state = 1 /\ lock regress_state = 2.
 Proof. vm_compute. repeat split; reflexivity. Qed.
-
-Lemma refuted_run3 :
-  let '(s, tr, st) := run_sb (list Z) lq_enq oq_deq c4k 15 [] refute_progs refute_sched3 in
-  map tpc (threads s) = [PGrabPush; POp OExit; PGrabPush] /\ occ (threads s) = 2 /\ lock s = 1.
-Proof. vm_compute. repeat split; reflexivity. Qed.
-
-Lemma refuted_reach :
-  exists s, reach stepL (init (list Z) [] refute_progs) s /\
-            map tpc (threads s) = [PGrabPush; PBytesSize; PStart] /\ occ (threads s) = 2.
-Proof.
-  pose proof (run_reach stepL (cands (list Z)) (finished (list Z)) 9 (init (list Z) [] refute_progs) refute_sched [] _ (reach_refl stepL _)) as R.
-  pose proof refuted_run as X. unfold run_sb in X. fold stepL in X.
-  destruct (run stepL (cands (list Z)) (finished (list Z)) 9 (init (list Z) [] refute_progs) refute_sched []) as [[s tr] st].
-  cbn [fst] in R. destruct X as (A & B & _). exists s. auto.
-Qed.
-
-Lemma refuted_reach_two_growers :
-  exists s, reach stepL (init (list Z) [] refute_progs) s /\
-            map tpc (threads s) = [PGrabPush; POp OExit; PGrabPush] /\ occ (threads s) = 2.
-Proof.
-  pose proof (run_reach stepL (cands (list Z)) (finished (list Z)) 15 (init (list Z) [] refute_progs) refute_sched3 [] _ (reach_refl stepL _)) as R.
-  pose proof refuted_run3 as X. unfold run_sb in X. fold stepL in X.
-  destruct (run stepL (cands (list Z)) (finished (list Z)) 15 (init (list Z) [] refute_progs) refute_sched3 []) as [[s tr] st].
-  cbn [fst] in R. destruct X as (A & B & _). exists s. auto.
-Qed.
 
 (* ---------- blocks_sized_aligned: the carving arithmetic ---------- *)
 Section Carve.
@@ -457,3 +427,7 @@ Proof.
   - rewrite Zmod_0_r in H2. subst a. apply Z.mod_0_l. lia.
   - apply Z.mod_divide in H2; [|exact Hc]. apply Z.mod_divide; [lia|]. eapply Z.divide_trans; eauto.
 Qed.
+
+Theorem sb_run_reach Q qenq qdeq c fuel q0 progs sched :
+  reach (step Q qenq qdeq c) (init Q q0 progs) (fst (fst (run_sb Q qenq qdeq c fuel q0 progs sched))).
+Proof. apply run_reach. apply reach_refl. Qed.
